@@ -491,10 +491,12 @@ var $methodSet = typ => {
         };
 
         current.forEach(e => {
-            if (seen[e.typ.id]) {
+            /* A type met again further down adds nothing; met twice at one depth (embedded
+               through two fields) everything it provides is ambiguous. */
+            if (seen[e.typ.id] !== undefined && seen[e.typ.id] < depth) {
                 return;
             }
-            seen[e.typ.id] = true;
+            seen[e.typ.id] = depth;
 
             if (e.typ.named && e.typ.kind !== $kindInterface) {
                 e.typ.methods.forEach(m => { declare(key(m.name, m.pkg), m); });
